@@ -154,6 +154,219 @@ theorem C09_restart (s : OS) (w : Nat) (errs : List Int) (v : Int) (hf : Fresh s
     · rw [c2, b3]; simp; omega
     · simp [b7, c4]
 
+/-! ### Restarts that find the submission queue full
+
+`C09_restart` re-issues every attempt at once. The re-issue goes through the
+same `Submissions::add` as a first submission, so it can find the queue full:
+the operation then waits for a slot (`NotStarted`, its waker on the blocked
+list) and is re-issued by a later poll. The theorem below covers every such
+history: each interrupted attempt `(e, k)` finds the queue full `k` times
+before it gets a slot. -/
+
+/-- A single-shot operation that was interrupted and is waiting for a slot to be
+re-issued: not started, nothing in flight, nothing pending. -/
+def Waiting (s : OS) : Prop :=
+  s.op.multi = false ∧ s.op.status = .notStarted ∧ s.cq = [] ∧ s.op.futLive = true ∧
+  s.inflight = false
+
+/-- One attempt that ends with outcome `e` and whose re-issue is refused `k`
+times by a full queue before it succeeds. `k = 0` is `attempt`. -/
+def attemptF (w : Nat) (e : Int) (k : Nat) : List Ev :=
+  [.kpost ⟨e, 0⟩, .process] ++ List.replicate k (.poll w false) ++ [.poll w true]
+
+def attemptsF (w : Nat) : List (Int × Nat) → List Ev
+  | [] => []
+  | (e, k) :: es => attemptF w e k ++ attemptsF w es
+
+theorem attemptF_zero (w : Nat) (e : Int) : attemptF w e 0 = attempt w e := rfl
+
+/-- A poll that finds the queue full while waiting: still waiting, the caller
+sees `Pending`, nothing is submitted, nothing released. -/
+theorem waiting_full (s : OS) (w : Nat) (hw : Waiting s) :
+    Waiting (step s (.poll w false)) ∧
+    (step s (.poll w false)).yielded = s.yielded ++ [.pending] ∧
+    (step s (.poll w false)).submits = s.submits ∧
+    (step s (.poll w false)).op.resInit = s.op.resInit ∧
+    (step s (.poll w false)).op.resDrops = s.op.resDrops ∧
+    (step s (.poll w false)).op.boxLive = s.op.boxLive ∧
+    valid s (.poll w false) = true := by
+  obtain ⟨h1, h2, h3, h4, h5⟩ := hw
+  cases hs : s with
+  | mk op inflight cq posted processed delivered submits cancels woken yielded panicked lastPend readySince wokenSince =>
+  cases ho : op with
+  | mk multi status waker boxLive resInit futLive frees resDrops =>
+  subst hs ho
+  simp at h1 h2 h3 h4 h5; subst h1 h2 h3 h4 h5
+  simp [step, valid, Op.poll, Op.pollAux, Waiting]
+
+/-- The poll that gets the slot: the operation is re-issued and is `Fresh`. -/
+theorem waiting_room (s : OS) (w : Nat) (hw : Waiting s) :
+    Fresh (step s (.poll w true)) ∧
+    (step s (.poll w true)).yielded = s.yielded ++ [.pending] ∧
+    (step s (.poll w true)).submits = s.submits + 1 ∧
+    (step s (.poll w true)).op.resInit = s.op.resInit ∧
+    (step s (.poll w true)).op.resDrops = s.op.resDrops ∧
+    (step s (.poll w true)).op.boxLive = s.op.boxLive ∧
+    valid s (.poll w true) = true := by
+  obtain ⟨h1, h2, h3, h4, h5⟩ := hw
+  cases hs : s with
+  | mk op inflight cq posted processed delivered submits cancels woken yielded panicked lastPend readySince wokenSince =>
+  cases ho : op with
+  | mk multi status waker boxLive resInit futLive frees resDrops =>
+  subst hs ho
+  simp at h1 h2 h3 h4 h5; subst h1 h2 h3 h4 h5
+  simp [step, valid, Op.poll, Op.pollAux, Fresh, Results.empty]
+
+/-- Any number of refused polls keeps the operation waiting. -/
+theorem waiting_fulls (s : OS) (w k : Nat) (hw : Waiting s) :
+    let es := List.replicate k (Ev.poll w false)
+    Waiting (run s es) ∧
+    (run s es).yielded = s.yielded ++ List.replicate k .pending ∧
+    (run s es).submits = s.submits ∧
+    (run s es).op.resInit = s.op.resInit ∧
+    (run s es).op.resDrops = s.op.resDrops ∧
+    (run s es).op.boxLive = s.op.boxLive ∧
+    validRun s es = true := by
+  induction k generalizing s with
+  | zero => simp [run, validRun, hw]
+  | succ k ih =>
+    obtain ⟨a1, a2, a3, a4, a5, a6, a7⟩ := waiting_full s w hw
+    obtain ⟨b1, b2, b3, b4, b5, b6, b7⟩ := ih (step s (.poll w false)) a1
+    simp only [List.replicate_succ, run, validRun] at b1 b2 b3 b4 b5 b6 b7 ⊢
+    refine ⟨b1, ?_, ?_, ?_, ?_, ?_, ?_⟩
+    · rw [b2, a2]; simp [List.append_assoc]
+    · rw [b3, a3]
+    · rw [b4, a4]
+    · rw [b5, a5]
+    · rw [b6, a6]
+    · simp [a7, b7]
+
+/-- The interrupted completion is processed and the next poll finds the queue
+full: the interruption is swallowed and the operation waits. -/
+theorem interrupted_full (s : OS) (w : Nat) (e : Int) (hf : Fresh s) (he : -e = EINTR ∨ -e = ECANCELED) :
+    let es := [Ev.kpost ⟨e, 0⟩, .process, .poll w false]
+    Waiting (run s es) ∧
+    (run s es).yielded = s.yielded ++ [.pending] ∧
+    (run s es).submits = s.submits ∧
+    (run s es).op.resInit = s.op.resInit ∧
+    (run s es).op.resDrops = s.op.resDrops ∧
+    (run s es).op.boxLive = s.op.boxLive ∧
+    validRun s es = true := by
+  obtain ⟨h1, h2, h3, h4, h5⟩ := hf
+  have hneg : ¬ (e ≥ 0) := by unfold EINTR ECANCELED at he; omega
+  have hnn : fNotif 0 = false := by decide
+  have hnm : fMore 0 = false := by decide
+  cases hs : s with
+  | mk op inflight cq posted processed delivered submits cancels woken yielded panicked lastPend readySince wokenSince =>
+  cases ho : op with
+  | mk multi status waker boxLive resInit futLive frees resDrops =>
+  subst hs ho
+  simp at h1 h2 h3 h4 h5; subst h1 h2 h3 h4 h5
+  cases waker <;>
+    simp [run, step, validRun, valid, Op.update, Results.update, hnn, hnm, Op.poll, Op.pollAux,
+      Results.next, hneg, he, Results.hasNext, Results.empty, Waiting]
+
+theorem replicate_snoc {α : Type} (k : Nat) (a : α) :
+    List.replicate k a ++ [a] = a :: List.replicate k a := by
+  induction k with
+  | zero => rfl
+  | succ k ih => simp [List.replicate_succ, ih]
+
+/-- One interrupted attempt whose re-issue is refused `k` times: `k + 1`
+`Pending`s, one more submission, same box and resources, `Fresh` again. -/
+theorem attemptF_restart (s : OS) (w : Nat) (e : Int) (k : Nat) (hf : Fresh s)
+    (he : -e = EINTR ∨ -e = ECANCELED) :
+    Fresh (run s (attemptF w e k)) ∧
+    (run s (attemptF w e k)).yielded = s.yielded ++ List.replicate (k + 1) .pending ∧
+    (run s (attemptF w e k)).submits = s.submits + 1 ∧
+    (run s (attemptF w e k)).op.resInit = s.op.resInit ∧
+    (run s (attemptF w e k)).op.resDrops = s.op.resDrops ∧
+    (run s (attemptF w e k)).op.boxLive = s.op.boxLive ∧
+    validRun s (attemptF w e k) = true := by
+  cases k with
+  | zero =>
+    rw [attemptF_zero]
+    obtain ⟨a1, a2, a3, a4, a5, a6, a7⟩ := attempt_restart s w e hf he
+    exact ⟨a1, by simpa using a2, a3, a4, a5, a6, a7⟩
+  | succ k =>
+    have hsplit : attemptF w e (k + 1) =
+        [Ev.kpost ⟨e, 0⟩, .process, .poll w false] ++ (List.replicate k (Ev.poll w false) ++ [.poll w true]) := by
+      simp [attemptF, List.replicate_succ]
+    obtain ⟨a1, a2, a3, a4, a5, a6, a7⟩ := interrupted_full s w e hf he
+    rw [hsplit]
+    simp only [run_append, validRun_append]
+    generalize run s [Ev.kpost ⟨e, 0⟩, .process, .poll w false] = s1 at a1 a2 a3 a4 a5 a6 ⊢
+    obtain ⟨b1, b2, b3, b4, b5, b6, b7⟩ := waiting_fulls s1 w k a1
+    generalize run s1 (List.replicate k (Ev.poll w false)) = s2 at b1 b2 b3 b4 b5 b6 ⊢
+    obtain ⟨c1, c2, c3, c4, c5, c6, c7⟩ := waiting_room s2 w b1
+    simp only [run, validRun]
+    refine ⟨c1, ?_, ?_, ?_, ?_, ?_, ?_⟩
+    · rw [c2, b2, a2]; simp [List.replicate_succ, List.append_assoc, replicate_snoc]
+    · rw [c3, b3, a3]
+    · rw [c4, b4, a4]
+    · rw [c5, b5, a5]
+    · rw [c6, b6, a6]
+    · simp only [b7, c7, Bool.and_true]
+      simpa [validRun] using a7
+
+/-- **Any finite sequence of interruptions, each re-issue refused any number
+of times by a full submission queue, then any final outcome.** The caller
+observes only `Pending`s (one per interruption and one per refused re-issue)
+and then exactly the outcome of the LAST attempt; the operation is submitted
+exactly once more per interruption — a refused re-issue is neither lost nor
+doubled —; box and resources stay the same; the history is a legal one. -/
+theorem C09_restart_queue_full (s : OS) (w : Nat) (errs : List (Int × Nat)) (v : Int) (hf : Fresh s)
+    (he : ∀ p ∈ errs, -p.1 = EINTR ∨ -p.1 = ECANCELED) (hv : ¬ (-v = EINTR ∨ -v = ECANCELED)) :
+    let s' := run s (attemptsF w errs ++ attempt w v)
+    s'.yielded = s.yielded ++ List.replicate ((errs.map (·.2 + 1)).sum) .pending ++
+        [if v ≥ 0 then .readyOk ⟨v, 0⟩ else .readyErr (-v)] ∧
+    s'.submits = s.submits + errs.length ∧
+    s'.op.status = .complete ∧
+    s'.op.boxLive = s.op.boxLive ∧
+    validRun s (attemptsF w errs ++ attempt w v) = true := by
+  induction errs generalizing s with
+  | nil =>
+    obtain ⟨a1, a2, a3, a4⟩ := attempt_final s w v hf hv
+    have hb : (run s (attempt w v)).op.boxLive = s.op.boxLive := by
+      obtain ⟨h1, h2, h3, h4, h5⟩ := hf
+      have hnn : fNotif 0 = false := by decide
+      have hnm : fMore 0 = false := by decide
+      cases hs : s with
+      | mk op inflight cq posted processed delivered submits cancels woken yielded panicked lastPend readySince wokenSince =>
+      cases ho : op with
+      | mk multi status waker boxLive resInit futLive frees resDrops =>
+      subst hs ho
+      simp at h1 h2 h3 h4 h5; subst h1 h2 h3 h4 h5
+      by_cases hp : v ≥ 0 <;> cases waker <;>
+        simp [attempt, run, step, Op.update, Results.update, hnn, hnm, Op.poll, Op.pollAux,
+          Results.next, hp, hv, Results.hasNext, Results.empty]
+    simp [attemptsF, a1, a2, a3, a4, hb]
+  | cons p es ih =>
+    obtain ⟨e, k⟩ := p
+    obtain ⟨b1, b2, b3, _, _, b6, b7⟩ := attemptF_restart s w e k hf (he (e, k) (by simp))
+    have := ih (run s (attemptF w e k)) b1 (fun p' hp' => he p' (by simp [hp']))
+    obtain ⟨c1, c2, c3, c4, c5⟩ := this
+    simp only [attemptsF, List.append_assoc, run_append, validRun_append] at c1 c2 c3 c4 c5 ⊢
+    refine ⟨?_, ?_, c3, ?_, ?_⟩
+    · rw [c1, b2]
+      simp only [List.map_cons, List.sum_cons, List.append_assoc]
+      rw [← List.append_assoc (List.replicate (k + 1) PollOut.pending), List.replicate_append_replicate]
+    · rw [c2, b3]; simp; omega
+    · rw [c4, b6]
+    · simp [b7, c5]
+
+/-- The statement is about something: two interruptions, the first re-issue
+refused twice, then 5 bytes. -/
+example :
+    let s0 : OS := run (init false) [.poll 1 true]
+    Fresh s0 ∧
+    (run s0 (attemptsF 1 [(-4, 2), (-125, 0)] ++ attempt 1 5)).yielded =
+      [.pending, .pending, .pending, .pending, .pending, .readyOk ⟨5, 0⟩] := by
+  intro s0
+  refine ⟨?_, by decide⟩
+  unfold Fresh
+  decide
+
 /-- **Interruption on the first completion of a two-step (zero-copy)
 operation.** The restart happens only after the notification arrived (the
 kernel is done with the buffers), and the interruption itself is swallowed. -/
